@@ -663,12 +663,18 @@ def stream_paths(rng, tier):
         n = len([c for c in p if c == "/"]) + 2
         for sched in itertools.product("fb", repeat=min(n, 6 if tier == "quick" else 8)):
             yield "segs u %s %s" % (hx(p), "".join(sched))
+        for sched in itertools.product("fb", repeat=min(n - 1, 3)):
+            for t in "clz":
+                yield "segs u %s %s" % (hx(p), "".join(sched) + t)
+                yield "segs i %s %s" % (hx(p), "".join(sched) + t)
     n = 3000 if tier == "quick" else 100000
     for _ in range(n):
         f = rng.choice("ui")
         p = rand_path(rng, f, "any", 6)
         yield "pathq %s %s" % (f, hx(p))
         yield "segs %s %s %s" % (f, hx(p), "".join(rng.choice("fb") for _ in range(rng.randrange(1, 10))))
+        # ... and what is left, consumed through `count()`, `last()`, `size_hint()`
+        yield "segs %s %s %s" % (f, hx(p), "".join(rng.choice("fb") for _ in range(rng.randrange(0, 6))) + rng.choice("clz"))
 
 
 def stream_relto(rng, tier):
